@@ -788,3 +788,246 @@ Section Generic.
     destruct (match_equal_spec _ _ _ _ _ E) as [H1 H2]. eapply build2_stat_sound; eauto.
   Qed.
 End Generic.
+
+(* ------------------------------------------------------------------------------------------ *)
+(* the instances' side conditions *)
+
+Ltac split_andb :=
+  repeat match goal with
+         | H : _ && _ = true |- _ => apply andb_prop in H; destruct H
+         end.
+
+Lemma flow_equal_supported a b : flow_equal a b = true -> flow_supported a = true -> flow_supported b = true.
+Proof. unfold flow_equal, flow_supported. intros H1 H2. split_andb. lia. Qed.
+
+Lemma iso_equal_supported a b : iso_never a b = true -> iso_always a = true -> iso_always b = true.
+Proof. reflexivity. Qed.
+
+Lemma hot_equal_supported a b : hot_equal a b = true -> hot_supported a = true -> hot_supported b = true.
+Proof. unfold hot_equal, hot_supported. intros H1 H2. split_andb. lia. Qed.
+
+Lemma brk_equal_supported a b : brk_equal a b = true -> brk_supported a = true -> brk_supported b = true.
+Proof. unfold brk_equal, brk_supported. intros H1 H2. split_andb. lia. Qed.
+
+(* ------------------------------------------------------------------------------------------ *)
+(* system *)
+
+Definition sys_list (l : option (list (option srule))) : list (option srule) := match l with Some x => x | None => [] end.
+
+Fixpoint sys_latest_from (acc : list (option srule)) (hist : list (option (list (option srule)) * result)) : list (option srule) :=
+  match hist with
+  | [] => acc
+  | (o, x) :: h => sys_latest_from (if changed x then sys_list o else acc) h
+  end.
+
+Lemma sys_load_unchanged s l : changed (snd (sys_load s l)) = false -> fst (sys_load s l) = s.
+Proof. unfold sys_load. destruct (opt_eqb _ (sys_raw s) l); cbn; [reflexivity|discriminate]. Qed.
+
+Lemma sys_load_changed s l : changed (snd (sys_load s l)) = true ->
+  sys_rules (fst (sys_load s l)) = filter sys_valid (nonnil (sys_list l)).
+Proof. unfold sys_load. destruct (opt_eqb _ (sys_raw s) l); cbn; [discriminate|reflexivity]. Qed.
+
+Lemma sys_run_cons s o ops :
+  sys_run s (o :: ops) = (fst (sys_run (fst (sys_load s o)) ops), snd (sys_load s o) :: snd (sys_run (fst (sys_load s o)) ops)).
+Proof. cbn. destruct (sys_load s o) as [s1 x]. cbn. destruct (sys_run s1 ops). reflexivity. Qed.
+
+Lemma sys_run_inv ops : forall s cur,
+  sys_rules s = filter sys_valid (nonnil cur) ->
+  sys_rules (fst (sys_run s ops)) = filter sys_valid (nonnil (sys_latest_from cur (combine ops (snd (sys_run s ops))))).
+Proof.
+  induction ops as [|o r IH]; intros s cur H; [exact H|].
+  rewrite sys_run_cons. cbn [fst snd combine sys_latest_from]. apply IH.
+  destruct (changed (snd (sys_load s o))) eqn:E.
+  - apply sys_load_changed. exact E.
+  - rewrite sys_load_unchanged by exact E. exact H.
+Qed.
+
+Lemma sys_enforced_eq_valid_latest ops :
+  sys_rules (fst (sys_run sys_init ops)) = filter sys_valid (nonnil (sys_latest_from [] (combine ops (snd (sys_run sys_init ops))))).
+Proof. apply sys_run_inv. reflexivity. Qed.
+
+Lemma sys_identical_reload s l :
+  Forall (fun r => sys_deep_eq r r = true) (nonnil (sys_list l)) ->
+  sys_load (fst (sys_load s l)) l = (fst (sys_load s l), r_unchanged).
+Proof.
+  intros H. destruct (opt_eqb (list_eqb (opt_eqb sys_deep_eq)) (sys_raw s) l) eqn:E.
+  - assert (X : sys_load s l = (s, r_unchanged)) by (unfold sys_load; rewrite E; reflexivity). rewrite X. cbn. exact X.
+  - assert (X : sys_raw (fst (sys_load s l)) = l) by (unfold sys_load; rewrite E; reflexivity).
+    unfold sys_load at 1. rewrite X.
+    assert (R : opt_eqb (list_eqb (opt_eqb sys_deep_eq)) l l = true).
+    { destruct l as [x|]; cbn; [|reflexivity]. cbn in H. clear - H.
+      induction x as [|[y|] r IH]; cbn in *; [reflexivity| |auto]. inversion H. subst. rewrite H2. cbn. auto. }
+    rewrite R. reflexivity.
+Qed.
+
+Lemma sys_no_panic s l : panicked (snd (sys_load s l)) = false /\ err (snd (sys_load s l)) = false.
+Proof. unfold sys_load. destruct (opt_eqb _ (sys_raw s) l); split; reflexivity. Qed.
+
+(* ------------------------------------------------------------------------------------------ *)
+(* outlier *)
+
+Definition out_last_for (res : Z) (l : list orule) : option orule :=
+  fold_left (fun acc r => if out_resource r =? res then Some r else acc) l None.
+
+Definition out_candidates (l : list (option orule)) : list orule :=
+  filter (fun r => match o_cb r with Some _ => true | None => false end) (nonnil l).
+
+Lemma out_group_lookup_gen res l : forall m acc,
+  alookup res m = acc ->
+  alookup res (fold_left (fun m r => aset (out_resource r) r m) l m)
+  = fold_left (fun acc r => if out_resource r =? res then Some r else acc) l acc.
+Proof.
+  induction l as [|r rs IH]; intros m acc H; cbn; [exact H|].
+  apply IH. destruct (out_resource r =? res) eqn:E.
+  - assert (out_resource r = res) as -> by lia. apply alookup_aset_same.
+  - rewrite alookup_aset_other by lia. exact H.
+Qed.
+
+Lemma out_group_lookup res l : alookup res (out_group l) = out_last_for res (out_candidates l).
+Proof. unfold out_group, out_last_for, out_candidates. apply out_group_lookup_gen. reflexivity. Qed.
+
+(* the rule in force for `res` after an op, given the one before *)
+Definition out_effect (o : out_op) (res : Z) (before : option orule) : option orule :=
+  match o with
+  | OLoadAll l => match out_last_for res (out_candidates l) with
+                  | Some r => if out_valid r then Some r else None
+                  | None => None
+                  end
+  | OLoadRes r x => if r =? res then x else before
+  end.
+
+Lemma alookup_mem_keys {A} k (m : list (Z * A)) : memZ k (akeys m) = false -> alookup k m = None.
+Proof.
+  induction m as [|[k' v] r IH]; cbn; [reflexivity|]. unfold akeys in *. cbn.
+  destruct (k =? k'); cbn; [discriminate|exact IH].
+Qed.
+
+Lemma out_step_unchanged s o :
+  changed (snd (out_step s o)) = false \/ err (snd (out_step s o)) = true -> fst (out_step s o) = s.
+Proof.
+  destruct o as [l|res r]; cbn; unfold out_load_all, out_load_res;
+    repeat (match goal with |- context [match ?x with _ => _ end] => destruct x eqn:? end);
+    cbn; auto; intros [H|H]; discriminate.
+Qed.
+
+Lemma out_step_effective s o res :
+  changed (snd (out_step s o)) = true -> err (snd (out_step s o)) = false ->
+  alookup res (out_rules (fst (out_step s o))) = out_effect o res (alookup res (out_rules s)).
+Proof.
+  destruct o as [l|r x]; cbn.
+  - unfold out_load_all. destruct (amap_eqb out_deep_eq (out_raw s) (out_group l)); cbn; [discriminate|]. intros _ _.
+    rewrite alookup_amap_of, <- out_group_lookup.
+    destruct (memZ res (akeys (out_group l))) eqn:E; [reflexivity|]. rewrite (alookup_mem_keys _ _ E). reflexivity.
+  - unfold out_load_res. destruct (r =? 0) eqn:E0; cbn; [discriminate|].
+    destruct x as [x|]; cbn.
+    + destruct (opt_eqb out_deep_eq (alookup r (out_raw s)) (Some x)); cbn; [discriminate|].
+      destruct (out_valid x); cbn; [|discriminate]. intros _ _.
+      destruct (r =? res) eqn:E; [assert (r = res) as -> by lia; apply alookup_aset_same|apply alookup_aset_other; lia].
+    + intros _ _. destruct (r =? res) eqn:E; [assert (r = res) as -> by lia; apply alookup_adel_same|apply alookup_adel_other; lia].
+Qed.
+
+Fixpoint out_latest_from (acc : option orule) (hist : list (out_op * result)) (res : Z) : option orule :=
+  match hist with
+  | [] => acc
+  | (o, x) :: h => out_latest_from (if changed x && negb (err x) then out_effect o res acc else acc) h res
+  end.
+
+Lemma out_run_cons s o ops :
+  out_run s (o :: ops) = (fst (out_run (fst (out_step s o)) ops), snd (out_step s o) :: snd (out_run (fst (out_step s o)) ops)).
+Proof. cbn. destruct (out_step s o) as [s1 x]. cbn. destruct (out_run s1 ops). reflexivity. Qed.
+
+Lemma out_run_inv res ops : forall s,
+  alookup res (out_rules (fst (out_run s ops)))
+  = out_latest_from (alookup res (out_rules s)) (combine ops (snd (out_run s ops))) res.
+Proof.
+  induction ops as [|o r IH]; intros s; [reflexivity|].
+  rewrite out_run_cons. cbn [fst snd combine out_latest_from]. rewrite IH. f_equal.
+  destruct (changed (snd (out_step s o))) eqn:E1; cbn.
+  - destruct (err (snd (out_step s o))) eqn:E2; cbn.
+    + rewrite out_step_unchanged by (right; exact E2). reflexivity.
+    + apply out_step_effective; assumption.
+  - rewrite out_step_unchanged by (left; exact E1). reflexivity.
+Qed.
+
+Lemma out_enforced_eq_valid_latest ops res :
+  alookup res (out_rules (fst (out_run out_init ops))) = out_latest_from None (combine ops (snd (out_run out_init ops))) res.
+Proof. apply (out_run_inv res ops out_init). Qed.
+
+(* whatever is in force passed both validity checks *)
+Lemma out_step_valid s o :
+  (forall k r, alookup k (out_rules s) = Some r -> out_valid r = true) ->
+  forall k r, alookup k (out_rules (fst (out_step s o))) = Some r -> out_valid r = true.
+Proof.
+  intros H k r. destruct (changed (snd (out_step s o))) eqn:E1.
+  - destruct (err (snd (out_step s o))) eqn:E2.
+    + rewrite out_step_unchanged by (right; exact E2). apply H.
+    + rewrite (out_step_effective s o k E1 E2). destruct o as [l|r0 x]; cbn.
+      * destruct (out_last_for k (out_candidates l)) as [y|]; [|discriminate].
+        destruct (out_valid y) eqn:V; [|discriminate]. intros X. inversion X. subst. exact V.
+      * destruct (r0 =? k) eqn:E; [|apply H]. intros X. subst x.
+        revert E1 E2. cbn. unfold out_load_res. destruct (r0 =? 0); cbn; [discriminate|].
+        destruct (opt_eqb out_deep_eq (alookup r0 (out_raw s)) (Some r)); cbn; [discriminate|].
+        destruct (out_valid r); cbn; [reflexivity|discriminate].
+  - rewrite out_step_unchanged by (left; exact E1). apply H.
+Qed.
+
+Lemma out_run_valid ops : forall s,
+  (forall k r, alookup k (out_rules s) = Some r -> out_valid r = true) ->
+  forall k r, alookup k (out_rules (fst (out_run s ops))) = Some r -> out_valid r = true.
+Proof.
+  induction ops as [|o rs IH]; intros s H; [exact H|]. rewrite out_run_cons. cbn [fst].
+  apply IH. apply out_step_valid. exact H.
+Qed.
+
+Lemma out_no_panic s o : panicked (snd (out_step s o)) = false.
+Proof.
+  destruct o as [l|res r]; cbn; unfold out_load_all, out_load_res;
+    repeat (match goal with |- context [match ?x with _ => _ end] => destruct x eqn:? end); reflexivity.
+Qed.
+
+Lemma out_identical_reload_res s res x :
+  out_deep_eq x x = true -> out_valid x = true -> res <> 0 ->
+  out_load_res (fst (out_load_res s res (Some x))) res (Some x) = (fst (out_load_res s res (Some x)), r_unchanged).
+Proof.
+  intros Hr Hv Hne. assert (E0 : res =? 0 = false) by lia.
+  destruct (opt_eqb out_deep_eq (alookup res (out_raw s)) (Some x)) eqn:E.
+  - assert (X : out_load_res s res (Some x) = (s, r_unchanged)) by (unfold out_load_res; rewrite E0, E; reflexivity).
+    rewrite X. cbn. exact X.
+  - assert (X : alookup res (out_raw (fst (out_load_res s res (Some x)))) = Some x).
+    { unfold out_load_res. rewrite E0, E, Hv. cbn. apply alookup_aset_same. }
+    unfold out_load_res at 1. rewrite E0, X. cbn. rewrite Hr. reflexivity.
+Qed.
+
+Lemma aset_In {A} k (v : A) m kv : In kv (aset k v m) -> kv = (k, v) \/ In kv m.
+Proof.
+  induction m as [|[k' v'] r IH]; cbn.
+  - intros [H|[]]; auto.
+  - destruct (k =? k'); cbn; intros [H|H]; auto. destruct (IH H); auto.
+Qed.
+
+Lemma out_group_values l : forall m kv,
+  In kv (fold_left (fun m r => aset (out_resource r) r m) l m) -> In kv m \/ In (snd kv) l.
+Proof.
+  induction l as [|r rs IH]; intros m kv; cbn; [auto|].
+  intros H. destruct (IH _ _ H) as [H1|H1]; [|auto].
+  destruct (aset_In _ _ _ _ H1) as [->|H2]; cbn; auto.
+Qed.
+
+Lemma out_identical_reload_all s l :
+  Forall (fun r => out_deep_eq r r = true) (nonnil l) ->
+  out_load_all (fst (out_load_all s l)) l = (fst (out_load_all s l), r_unchanged).
+Proof.
+  intros H. destruct (amap_eqb out_deep_eq (out_raw s) (out_group l)) eqn:E.
+  - assert (X : out_load_all s l = (s, r_unchanged)) by (unfold out_load_all; rewrite E; reflexivity). rewrite X. cbn. exact X.
+  - assert (X : out_raw (fst (out_load_all s l)) = out_group l) by (unfold out_load_all; rewrite E; reflexivity).
+    unfold out_load_all at 1. rewrite X.
+    assert (R : amap_eqb out_deep_eq (out_group l) (out_group l) = true).
+    { apply amap_eqb_refl. apply Forall_forall. intros kv Hin. unfold out_group in Hin.
+      destruct (out_group_values _ _ _ Hin) as [[]|H1]. apply filter_In in H1. destruct H1 as [H1 _].
+      rewrite Forall_forall in H. auto. }
+    rewrite R. reflexivity.
+Qed.
+
+Lemma out_only_valid ops k r :
+  alookup k (out_rules (fst (out_run out_init ops))) = Some r -> out_valid r = true.
+Proof. apply (out_run_valid ops out_init). intros k0 r0 H. discriminate H. Qed.
